@@ -30,7 +30,11 @@ EXTRA = 'const Dimension *gh_dims_base;\n'
 def job(fn, **kw):
     d = dict(name=fn, bodies=['NDSize_size', 'NDSize_at', fn], enforce=[fn], replace=[], extra_c=EXTRA, loop_contracts=True, defines=['NIX_TMP_LITERAL'],
              expect_kinds=['postcondition', 'loop_invariant_base', 'loop_invariant_step'], timeout=900); d.update(kw); return d
-JOBS = [job('dimTicksMatchData_call'), job('dimLabelsMatchData_call'), job('dimDataFrameTicksMatchData_call'),
+def bjob(fn):
+    # twin without loop contracts (robust against a rewritten loop): descriptor vectors up to 4 entries, complete unwinding - BOUNDED, not counted
+    return job(fn, name=fn + '[bounded]', loop_contracts=False, defines=['NIX_TMP_LITERAL', 'NIX_NO_LOOP_CONTRACTS', 'C19_BOUNDED=4'], cbmc_flags=['--unwind', '6', '--unwinding-assertions'],
+               expect_kinds=['postcondition', 'unwind'], bounded='descriptor vectors of at most 4 entries, loop unwound completely')
+JOBS = [bjob('dimTicksMatchData_call'), bjob('dimLabelsMatchData_call'), bjob('dimDataFrameTicksMatchData_call'), job('dimTicksMatchData_call'), job('dimLabelsMatchData_call'), job('dimDataFrameTicksMatchData_call'),
         job('dimEquals_call', loop_contracts=False, expect_kinds=['postcondition']),
         dict(name='tagUnitsMatchRefsUnits_call', bodies=['tagUnitsMatchRefsUnits_call'], enforce=['tagUnitsMatchRefsUnits_call'], replace=[], includes=['c19_units.h'],
              extra_c='bool gh_scal[NSTR_IDS][NSTR_IDS];\n', cbmc_flags=['--unwind', '5', '--unwinding-assertions'], expect_kinds=['postcondition', 'unwind'], timeout=900,
